@@ -173,7 +173,7 @@ inline void InputPcapJumbo::recvPacket()
       uint16_t udp_port = 0;
       const uint8_t* udp_data = NULL;
       size_t udp_data_len = 0;
-      bool new_pkt = jumbo_.new_fragment(pkt_data, header->len, &udp_port, &udp_data, &udp_data_len);
+      bool new_pkt = jumbo_.new_fragment(pkt_data, header->caplen, &udp_port, &udp_data, &udp_data_len);
       if (new_pkt)
       {
         if ((udp_port == input_param_.msop_port) || (udp_port == input_param_.difop_port))
